@@ -136,6 +136,24 @@ def default_config_gens() -> list:
              "dbl": [0, 65, 1024], "ov": [], "noflags": True} for sig, comps in roots]
 
 
+def mixed_dimension_gens() -> list:
+    """Arrays whose dimensions differ: in `T[2][]` the LAST bracket is the outermost dimension."""
+    u = {"k": "uint", "n": 256, "c": []}
+    b = {"k": "bytes", "n": 0, "c": []}
+    far = lambda t, n: {"k": "farr", "n": n, "c": [t]}  # noqa: E731
+    dar = lambda t: {"k": "darr", "n": 0, "c": [t]}  # noqa: E731
+    tup = {"k": "tuple", "n": 0, "c": [u, b]}
+    roots = [
+        ("(uint256[2][])", [dar(far(u, 2))]),
+        ("(uint256[][2],uint256)", [far(dar(u), 2), u]),
+        ("(uint256[2][],bytes)", [dar(far(u, 2)), b]),
+        ("((uint256,bytes)[2][])", [dar(far(tup, 2))]),
+        ("(uint256[3][2][])", [dar(far(far(u, 3), 2))]),
+    ]
+    return [{"h": 0, "cc": 1, "sig": sig, "t": {"k": "tuple", "n": 0, "c": comps}, "dal": [0, 1, 2],
+             "dbl": [0, 65, 1024], "ov": [], "noflags": True} for sig, comps in roots]
+
+
 def unnamed_gens() -> list:
     """Unnamed parameters (ABI "name": ""): siblings of one type get the same name prefix; they still have to be
     distinct, independent symbols."""
@@ -160,7 +178,7 @@ def unnamed_gens() -> list:
 def conformance(chk: Check, P: dict, work, rnd, tier: str, recs) -> dict:
     """Streams the signatures through build (real mk_calldata) -> TLC (AbiRun) -> judge, one batch at a
     time; the extra cases (exploration, probes, negative controls) ride along with the last batch."""
-    recs = list(recs) + default_config_gens() + unnamed_gens()
+    recs = list(recs) + default_config_gens() + unnamed_gens() + mixed_dimension_gens()
     jobs = [(i + 1, g, P["cap"], chk.seed, P["all_values"], P["ngen"]) for i, g in enumerate(recs)]
     batches = [jobs[i : i + P["batch"]] for i in range(0, len(jobs), P["batch"])]
     pool = None
